@@ -134,6 +134,44 @@ pub fn run(args: &Args) -> Report {
                     }
                 }
                 rep.count("oneshot_burst_wrong_results", bad);
+                // second burst: update_reader / Write on this thread's own hashers, all threads
+                // entering the I/O helpers at the same time
+                #[cfg(feature = "std")]
+                {
+                    let rburst = if small { 4 } else { 6000 };
+                    let mut routs: Vec<[u8; 32]> = Vec::with_capacity(rburst);
+                    let payload: Vec<u8> = (0..700).map(|i| (i as u8).wrapping_mul(t as u8 + 3).wrapping_add(t as u8)).collect();
+                    burst_barrier.wait();
+                    let r2 = guarded(|| {
+                        for k in 0..rburst {
+                            let n = 1 + (k * 37 + t * 11) % 700;
+                            let mut h = blake3::Hasher::new();
+                            if k % 2 == 0 {
+                                let _ = h.update_reader(&payload[..n]);
+                            } else {
+                                let _ = std::io::copy(&mut &payload[..n], &mut h);
+                            }
+                            routs.push(*h.finalize().as_bytes());
+                        }
+                    });
+                    if let Err(p) = r2 {
+                        rep.violation("C18/rust/reader-burst-panic", format!("thread {}: {}", t, p), args.replay_args(0, P::Native));
+                    }
+                    let mut rbad = 0u64;
+                    for (k, got) in routs.iter().enumerate() {
+                        let n = 1 + (k * 37 + t * 11) % 700;
+                        let want = specmodel::hash(&Mode::Hash, &payload[..n]);
+                        if *got != want {
+                            rbad += 1;
+                            if rbad == 1 {
+                                rep.violation("C18/rust/reader-burst-mismatch", format!("thread {} of {}: update_reader/io::copy call #{} over {} bytes gave {} while other threads were reading; alone it gives {}", t, n, k, n, hex(got), hex(&want)), args.replay_args(0, P::Native));
+                            }
+                        }
+                    }
+                    rep.evaluations += rburst as u64;
+                    rep.count("reader_burst_calls", rburst as u64);
+                    rep.count("reader_burst_wrong_results", rbad);
+                }
                 rep.evaluations += burst as u64;
                 rep.count("oneshot_burst_calls", burst as u64 * 3);
                 rep.seen("thread_platforms", p.name());
